@@ -17,11 +17,22 @@ def fwd(node):
 
 def translate():
     src, tree = load(REL)
-    f = find_def(tree, 'retry_func', UNIT)
-    a = f.args
+    # retry_func: public entry, hands its *args / **kwargs over as a tuple and a dict (no merging with its own keywords)
+    rf = find_def(tree, 'retry_func', UNIT)
+    a = rf.args
     if [x.arg for x in a.args] != ['func'] or a.vararg is None or a.vararg.arg != 'args' or a.kwarg is None \
             or a.kwarg.arg != 'kwargs' or [x.arg for x in a.kwonlyargs] != ['attempts', 'exceptions', 'sleep_time', 'logger']:
         raise Untranslatable(UNIT, 'signature of retry_func changed')
+    delegate = ast.parse('_retry(func, args, kwargs, attempts=attempts, exceptions=exceptions, '
+                         'sleep_time=sleep_time, logger=logger)').body[0].value
+    rb = strip_doc(rf.body)
+    if not (len(rb) == 1 and isinstance(rb[0], ast.Return) and rb[0].value is not None and dump(rb[0].value) == dump(delegate)):
+        raise Untranslatable(UNIT, 'retry_func does not delegate to _retry(func, args, kwargs, <same keywords>)')
+    f = find_def(tree, '_retry', UNIT)
+    a = f.args
+    if [x.arg for x in a.args] != ['func', 'args', 'kwargs', 'attempts', 'exceptions', 'sleep_time', 'logger'] \
+            or a.vararg is not None or a.kwarg is not None or a.kwonlyargs or a.defaults or a.posonlyargs:
+        raise Untranslatable(UNIT, 'signature of _retry changed')
     body = strip_doc(f.body)
     # counter initialisation
     st = body[0]
@@ -71,6 +82,11 @@ def translate():
     for s in h.body:
         if isinstance(s, ast.Expr) and isinstance(s.value, ast.Call) and isinstance(s.value.func, ast.Attribute) \
                 and is_name(s.value.func.value, 'logger'):
+            # the message must not read attributes of the callee directly: func.__name__ raises AttributeError for
+            # functools.partial / callable objects and the handler would die instead of retrying (pre-fix shape)
+            if any(isinstance(n, ast.Attribute) and is_name(n.value, 'func') for n in ast.walk(s)):
+                raise Untranslatable(UNIT, f'the log statement at line {s.lineno} reads an attribute of func directly '
+                                           '(AttributeError for callables without it replaces the retry)')
             hs.append('HLog')
         elif isinstance(s, ast.AugAssign) and is_name(s.target, counter) and isinstance(s.op, (ast.Add, ast.Sub)) \
                 and isinstance(s.value, ast.Constant) and type(s.value.value) is int:
@@ -101,17 +117,20 @@ def translate():
     r = find_def(tree, 'retry', UNIT)
     wr = find_def(r, 'wrapper', UNIT)
     wb = strip_doc(wr.body)
-    expect = ast.parse('retry_func(func, *args, attempts=attempts, exceptions=exceptions, '
-                       'sleep_time=sleep_time, logger=logger, **kwargs)').body[0].value
-    wrapper_ok = (len(wb) == 1 and isinstance(wb[0], ast.Return) and wb[0].value is not None
-                  and dump(wb[0].value) == dump(expect))
+    wa = wr.args
+    sig_ok = (not wa.args and not wa.kwonlyargs and not wa.posonlyargs and wa.vararg is not None and wa.vararg.arg == 'args'
+              and wa.kwarg is not None and wa.kwarg.arg == 'kwargs')
+    wrapper_ok = (sig_ok and len(wb) == 1 and isinstance(wb[0], ast.Return) and wb[0].value is not None
+                  and dump(wb[0].value) == dump(delegate))
     if not wrapper_ok:
-        raise Untranslatable(UNIT, 'retry.wrapper does not forward to retry_func(func, *args, <same keywords>, **kwargs)')
+        raise Untranslatable(UNIT, 'retry.wrapper is not `def wrapper(*args, **kwargs): return _retry(func, args, kwargs, <same keywords>)` '
+                                   '(merging **kwargs into the keywords of the retry machinery collides with parameters of the callee)')
     wraps_ok = any(isinstance(d, ast.Call) and is_name(d.func, 'wraps') and len(d.args) == 1 and is_name(d.args[0], 'func')
                    for d in wr.decorator_list)
 
     out = header('t_retry.py', ['From PV Require Import Base.Exn Model.RetrySem.'])
-    out += f'Definition src_retry_func : string := {coq_string(provenance(REL, src, f))}.\n'
+    out += f'Definition src_retry_func : string := {coq_string(provenance(REL, src, rf))}.\n'
+    out += f'Definition src_retry_loop : string := {coq_string(provenance(REL, src, f))}.\n'
     out += f'Definition src_retry : string := {coq_string(provenance(REL, src, r))}.\n'
     out += 'Definition retry_cfg : retry_cfg := {|\n'
     out += f'  rc_init := {coq_Z(init)};\n  rc_cmp := {cmp_};\n  rc_catch := {catch};\n'
